@@ -31,7 +31,7 @@ ASSUMPTIONS = [
     "the truthfulness clause is only checked under the statement's trigger (index created or changed in memory, or file STOP disagreeing with the data)",
 ]
 REQUIRED = ["frame_condition_evaluations", "double_write_comparisons", "truthfulness_checks", "cases_refresh_triggered",
-            "cases_refresh_not_triggered", "cases_with_empty_values_and_units"]
+            "cases_refresh_not_triggered", "cases_with_empty_values_and_units", "cases_with_digit_named_curves", "constructed_by_read_case_upper", "constructed_by_read_case_lower", "constructed_by_read_case_preserve"]
 SOFT_DEADLINE = {"quick": 90, "thorough": 1200}
 LEVEL_TEXT = ("Exploration with a full before/after frame condition on every write() call (icontract snapshot/ensure on the "
               "real method), byte comparison of consecutive outputs and an independent tokeniser for STRT/STOP/STEP.")
@@ -90,8 +90,9 @@ def frame_diff(old, new, wrap_given):
                     continue
                 if name == "Curves" and i == 0 and f == "unit":
                     continue
-                if name == "Version" and up == "WRAP" and wrap_given and f in ("value", "descr", "unit"):
-                    continue
+                if name == "Version" and up == "WRAP" and wrap_given and (f in ("value", "descr", "unit") or str(b[f]).upper() == str(a[f]).upper()):
+                    continue        # "the WRAP item when wrap= is given": the item is replaced, its spelling may become 'WRAP'
+
                 if name in ("Well", "Parameter") and f == "value":
                     if a["value"] in (("str", ""), ("none",)) and a["unit"] and b["value"] in (("int", 0), ("num", 0.0)):
                         continue
@@ -194,7 +195,8 @@ def grid(tier):
                     rng = random.Random("C16grid:%d" % i)
                     i += 1
                     yield {"kind": "gen", "spec": base_spec(rng, shape), "constr": constr, "edit": edit,
-                           "shape": shape, "opts": opts, "writes": 2, "inplace_pos": -(i % 2)}
+                           "shape": shape, "opts": opts, "writes": 2, "inplace_pos": -(i % 2),
+                           "read_case": ["preserve", "upper", "lower"][i % 3], "digitnames": i % 5 == 0}
     import glob, os
     from rv import env
     for fn in sorted(glob.glob(os.path.join(env.REPO, "tests", "examples", "**", "*.las"), recursive=True)):
@@ -208,13 +210,21 @@ def n_random(tier):
 def random_case(rng, tier):
     shape = rng.choice(["increasing", "decreasing", "single", "irregular"])
     return {"kind": "gen", "spec": base_spec(rng, shape), "constr": rng.choice(CONSTR), "edit": rng.choice(EDITS),
-            "shape": shape, "opts": rand_opts(rng), "writes": rng.randint(2, 4), "inplace_pos": rng.choice([0, -1])}
+            "shape": shape, "opts": rand_opts(rng), "writes": rng.randint(2, 4), "inplace_pos": rng.choice([0, -1]),
+            "read_case": rng.choice(["preserve", "upper", "lower"]), "digitnames": rng.random() < 0.2}
 
 
 def construct(ctx, case):
     """Build the object; returns (las, triggered) or (None, reason)."""
     lasio = ctx.lasio
     spec, constr, edit = case["spec"], case["constr"], case["edit"]
+    if case.get("digitnames"):
+        # curves named by bare numbers that are the *positions of other curves* ("0" is the last curve, never the index)
+        spec = dict(spec, curves=[list(c) for c in spec["curves"]])
+        nc = len(spec["curves"])
+        for j in range(1, nc):
+            spec["curves"][j][0] = str((j + 1) % nc)
+        ctx.count("cases_with_digit_named_curves")
     las = lasobj.build(lasio, spec)
     triggered = constr == "scratch"
     if constr in ("read", "wrong_stop"):
@@ -233,7 +243,8 @@ def construct(ctx, case):
                 return None, "no STOP line"
             triggered = True
         try:
-            las = lasio.read(text, mnemonic_case="preserve")
+            las = lasio.read(text, mnemonic_case=case.get("read_case", "preserve"))
+            ctx.count("constructed_by_read_case_" + case.get("read_case", "preserve"))
         except Exception as e:
             return None, "own output unreadable (C11's business): %r" % (e,)
         if len(las.curves) != len(spec["curves"]):
@@ -304,7 +315,7 @@ def run_case(case, ctx):
         empties = [it for s in ("well", "params") for it in spec[s] if it[2] in ("", None) and it[1]]
         if empties:
             ctx.count("cases_with_empty_values_and_units")
-        sig = [case["constr"], case["edit"], case["shape"], sorted(case["opts"].items(), key=str),
+        sig = [case["constr"], case["edit"], case["shape"], case.get("read_case"), bool(case.get("digitnames")), sorted(case["opts"].items(), key=str),
                len(spec["curves"]), bool(empties), len(spec["well"]), len(spec["params"])]
         nontrivial = len(spec["curves"]) >= 2 and (len(spec["well"]) + len(spec["params"])) >= 1
         ctx.count("cases_refresh_triggered" if triggered else "cases_refresh_not_triggered")
